@@ -163,7 +163,7 @@ fn parse_anchor(s: &str) -> std::result::Result<AtAnchor, String> {
     for (kw, before) in [("before", true), ("after", false)] {
         if let Some(rest) = s.strip_prefix(kw) {
             let rest = rest.trim();
-            if rest.starts_with('"') && rest.ends_with('"') && rest.len() >= 2 {
+            if (rest.starts_with('"') && rest.ends_with('"') || rest.starts_with('`') && rest.ends_with('`')) && rest.len() >= 2 {
                 let key = norm_str(&rest[1..rest.len() - 1]).ok_or(format!("bad anchor text {s}"))?;
                 return Ok(if before { AtAnchor::StmtBefore(key) } else { AtAnchor::StmtAfter(key) });
             }
